@@ -106,6 +106,58 @@ def generate(repo):
         raise ValueError("_parse_channel_open: _channels.put(my_chanid, ..) not in exactly one locked block")
     same = 1 if _calls(put_tries[0], "self._next_channel(") else 0
 
+    # every site that changes the live map, pinned: (operation, enclosing function)
+    sites = []
+    for cls in classes.values():
+        for fn in cls.body:
+            if not isinstance(fn, ast.FunctionDef):
+                continue
+            for n in ast.walk(fn):
+                if isinstance(n, ast.Call):
+                    u = ast.unparse(n.func)
+                    if u in ("self._channels.put", "self._channels.delete"):
+                        sites.append((u.split(".")[-1], cls.name + "." + fn.name))
+                if isinstance(n, ast.Attribute) and n.attr == "_map" and cls.name != "ChannelMap":
+                    raise ValueError("%s.%s touches ChannelMap._map directly" % (cls.name, fn.name))
+                if isinstance(n, (ast.Assign, ast.AugAssign, ast.Delete)):
+                    tg = n.targets if not isinstance(n, ast.AugAssign) else [n.target]
+                    for t in tg:
+                        if ast.unparse(t).startswith("self._channels") and fn.name != "__init__":
+                            raise ValueError("%s.%s rebinds / edits self._channels" % (cls.name, fn.name))
+    want_sites = sorted([("put", "Transport.open_channel"), ("put", "Transport._parse_channel_open"),
+                         ("delete", "Transport._unlink_channel"), ("delete", "Transport._parse_channel_open_failure")])
+    if sorted(sites) != want_sites:
+        raise ValueError("live-map mutation sites changed: %r (expected %r)" % (sorted(sites), want_sites))
+    # the delete in _parse_channel_open_failure is guarded by `if chanid in self.channel_events`
+    pf = tr["_parse_channel_open_failure"]
+    guarded = [i for i in ast.walk(pf) if isinstance(i, ast.If)
+               and ast.unparse(i.test) == "chanid in self.channel_events"
+               and any(_calls(b_, "self._channels.delete(chanid") for b_ in i.body)]
+    outside = [c for c in _calls(pf, "self._channels.delete(")
+               if not any(c in list(ast.walk(g)) for g in guarded)]
+    if not guarded or outside:
+        raise ValueError("_parse_channel_open_failure: _channels.delete(chanid) is not guarded by "
+                         "`if chanid in self.channel_events`")
+    # callers of _unlink_channel, and no other module reaches into the map
+    pdir = os.path.join(repo, "paramiko")
+    callers = []
+    for fname in sorted(os.listdir(pdir)):
+        if not fname.endswith(".py"):
+            continue
+        src = open(os.path.join(pdir, fname)).read()
+        if fname not in ("transport.py",) and "._channels" in src:
+            raise ValueError("%s reaches into Transport._channels" % fname)
+        if "_unlink_channel(" not in src:
+            continue
+        for cls in [n for n in ast.parse(src).body if isinstance(n, ast.ClassDef)]:
+            for fn in cls.body:
+                if isinstance(fn, ast.FunctionDef):
+                    for c in ast.walk(fn):
+                        if isinstance(c, ast.Call) and ast.unparse(c.func).endswith("._unlink_channel"):
+                            callers.append("%s:%s.%s" % (fname, cls.name, fn.name))
+    if sorted(callers) != ["channel.py:Channel._handle_close", "channel.py:Channel._unlink"]:
+        raise ValueError("callers of _unlink_channel changed: %r" % sorted(callers))
+
     text = """(* GENERATED by gen/c23.py from paramiko/transport.py -- do not edit *)
 From Coq Require Import ZArith.
 Open Scope Z_scope.
